@@ -181,6 +181,43 @@ fn check_excess_parentheses(internal_expression: &Expression, context: Expressio
     }
 }
 
+/// Special case: if we have `- -foo`, or `-(-foo)` where we have already removed the parentheses, then
+/// it will lead to `--foo`, which is invalid syntax. We must explicitly add/keep the parentheses `-(-foo)`.
+/// Takes the formatted operand of `unop`, and wraps it in parentheses if required.
+fn parenthesise_nested_unary_minus(unop: &UnOp, expression: Expression) -> Expression {
+    if let UnOp::Minus(_) = unop {
+        let require_parentheses = match expression {
+            Expression::UnaryOperator {
+                unop: UnOp::Minus(_),
+                ..
+            } => true,
+            Expression::Parentheses { ref expression, .. } => matches!(
+                &**expression,
+                Expression::UnaryOperator {
+                    unop: UnOp::Minus(_),
+                    ..
+                }
+            ),
+            _ => false,
+        };
+
+        if require_parentheses {
+            let (new_expression, trailing_comments) =
+                trivia_util::take_trailing_comments(&expression);
+            return Expression::Parentheses {
+                contained: ContainedSpan::new(
+                    TokenReference::symbol("(").unwrap(),
+                    TokenReference::symbol(")").unwrap(),
+                )
+                .update_trailing_trivia(FormatTriviaType::Append(trailing_comments)),
+                expression: Box::new(new_expression),
+            };
+        }
+    }
+
+    expression
+}
+
 /// Formats an Expression node
 pub fn format_expression(ctx: &Context, expression: &Expression, shape: Shape) -> Expression {
     format_expression_internal(ctx, expression, ExpressionContext::Standard, shape)
@@ -292,44 +329,14 @@ fn format_expression_internal(
         Expression::UnaryOperator { unop, expression } => {
             let unop = format_unop(ctx, unop, shape);
             let shape = shape + strip_leading_trivia(&unop).to_string().len();
-            let mut expression = format_expression_internal(
+            let expression = format_expression_internal(
                 ctx,
                 expression,
                 ExpressionContext::UnaryOrBinary,
                 shape,
             );
 
-            // Special case: if we have `- -foo`, or `-(-foo)` where we have already removed the parentheses, then
-            // it will lead to `--foo`, which is invalid syntax. We must explicitly add/keep the parentheses `-(-foo)`.
-            if let UnOp::Minus(_) = unop {
-                let require_parentheses = match expression {
-                    Expression::UnaryOperator {
-                        unop: UnOp::Minus(_),
-                        ..
-                    } => true,
-                    Expression::Parentheses { ref expression, .. } => matches!(
-                        &**expression,
-                        Expression::UnaryOperator {
-                            unop: UnOp::Minus(_),
-                            ..
-                        }
-                    ),
-                    _ => false,
-                };
-
-                if require_parentheses {
-                    let (new_expression, trailing_comments) =
-                        trivia_util::take_trailing_comments(&expression);
-                    expression = Expression::Parentheses {
-                        contained: ContainedSpan::new(
-                            TokenReference::symbol("(").unwrap(),
-                            TokenReference::symbol(")").unwrap(),
-                        )
-                        .update_trailing_trivia(FormatTriviaType::Append(trailing_comments)),
-                        expression: Box::new(new_expression),
-                    }
-                }
-            }
+            let expression = parenthesise_nested_unary_minus(&unop, expression);
 
             Expression::UnaryOperator {
                 unop,
@@ -1421,6 +1428,7 @@ fn format_hanging_expression_(
                 ExpressionContext::UnaryOrBinary,
                 lhs_range,
             );
+            let expression = parenthesise_nested_unary_minus(&unop, expression);
 
             Expression::UnaryOperator {
                 unop,
